@@ -127,6 +127,12 @@ def parse(text):
     while i < n:
         line = lines[i]
         if cur is None:
+            mconst = re.match(r"const (.*?promoted\[\d+\]): (.*) = \{$", line)
+            if mconst:
+                # promoted constant body: `const path::promoted[N]: T = {` ... `}`
+                cur = Func("const " + mconst.group(1), "", mconst.group(2), i + 1)
+                i += 1
+                continue
             if line.startswith("fn ") and line.endswith("{"):
                 head = line[3:-2]
                 p = head.find("(")
